@@ -13,6 +13,8 @@ import sys
 import traceback
 import types
 
+from .obs import ObsError
+
 DUNDERS = ('__init__', '__new__', '__getitem__', '__add__', '__iadd__', '__str__',
            '__repr__', '__format__', '__iter__', '__eq__', '__contains__', '__len__')
 
@@ -321,6 +323,10 @@ class Monitor:
                 for c in cs:
                     try:
                         states.append((c, c.pre(call)))
+                    except ObsError:
+                        # the value was already unusable before this call: not this call's fault (C09 judged
+                        # the operation that produced it)
+                        ctx.grey('pre-state-unobservable')
                     except Exception:
                         ctx.oracle_error('%s.pre %s' % (type(c).__name__, key))
                 result = None
@@ -343,6 +349,11 @@ class Monitor:
                 for c, st in states:
                     try:
                         c.post(call, st, result, exc)
+                    except ObsError as oe:
+                        # observable before the call, not observable after it: the postcondition cannot hold
+                        ctx.ev('post-state-observable')
+                        ctx.violation('post-state-unobservable', {'error': repr(oe.exc)}, call,
+                                      mech='unobservable-after:' + name)
                     except Exception:
                         ctx.oracle_error('%s.post %s' % (type(c).__name__, key))
             finally:
